@@ -609,8 +609,13 @@ pub fn drive(ctx: &Ctx) -> Summary {
     let mut rng = util::rng(ctx.seed, 303);
     let alphabet = Alphabet {
         literals: LITERALS,
-        vars: &["x", "y", "theta"],
-        addrs: &[("m", 0), ("m", 1), ("n", 1), ("ro", 2)],
+        // names that collide, exactly or up to case, with the reserved words of the expression grammar
+        // (all of these round-trip on the unchanged tree: `name[index]` is tried before the reserved words)
+        vars: &["x", "y", "theta", "sin", "pi", "I", "Exp"],
+        addrs: &[
+            ("m", 0), ("m", 1), ("n", 1), ("ro", 2), ("exp", 1), ("Sin", 0), ("SIN", 1), ("pi", 0), ("PI", 1),
+            ("i", 0), ("I", 1), ("sqrt", 0), ("cos", 0), ("cis", 2),
+        ],
         ops: OPS,
         fns: FUNCTIONS,
         pi: true,
